@@ -8,7 +8,7 @@ git apply "$patch" || { echo "patch does not apply"; exit 2; }
 export GOFLAGS=-mod=mod GOPROXY=off GOSUMDB=off GOTOOLCHAIN=local
 go build ./... 2>&1 | head -3
 for p in "$@"; do
-  (cd /verif && bin/dsvc check $p 2>&1 | grep -v "^KNOWN-FINDING\|^UNDECIDED" | sed 's/replay=[^ ]*//' | cut -c1-200 | tail -6; )
+  (cd /verif && out=$(bin/dsvc check $p 2>&1); echo "$out" | grep "^VIOLATION" | grep -v "obligation-missing" | sed 's/replay=[^ ]*//' | cut -c1-220 | head -12; echo "  (+ $(echo "$out" | grep -c "obligation-missing") ledger obligations missing)"; echo "$out" | grep "^dsvc"; )
 done
 git checkout -- . 
 git status --short | head -3
